@@ -39,6 +39,8 @@ for R in (TocRenderer, GithubWikiRenderer, MathJaxRenderer, PygmentsRenderer):
 both = sorted(set(n for n in vars(HtmlRenderer)) & set(n for k in LaTeXRenderer.__mro__ if k is not object for n in vars(k)))
 out['mathjax_mro'] = {n: owner(MathJaxRenderer, n) for n in both if not (n.startswith('__') and n not in ('__init__',))}
 out['html_owner'] = {n: owner(HtmlRenderer, n) for n in out['mathjax_mro']}
+# where HtmlRenderer gets each name MathJaxRenderer can resolve, by any route (own, BaseRenderer, ...)
+out['html_resolves'] = {n: owner(HtmlRenderer, n) for n in names(MathJaxRenderer)}
 defaults_b = [c.__name__ for c in block_token._token_types]
 defaults_s = [c.__name__ for c in span_token._token_types]
 out['defaults'] = {'block': defaults_b, 'span': defaults_s, 'block_all': list(block_token.__all__), 'span_all': list(span_token.__all__)}
@@ -140,7 +142,9 @@ def class_lemmas(repo):
         extra = [n for n in diff if n not in EXTENSION_SETS[R]]
         if R == 'MathJaxRenderer':
             # attributes that exist only because LaTeXRenderer is a second base class
-            extra = [n for n in extra if facts['html_owner'].get(n) is not None or n in facts['mathjax_mro']]
+            # (a name HtmlRenderer resolves by ANY route - its own or an inherited BaseRenderer method - must
+            # resolve to the same definition in MathJaxRenderer: LaTeXRenderer comes before BaseRenderer in the MRO)
+            extra = [n for n in extra if facts['html_resolves'].get(n) is not None or n in facts['mathjax_mro']]
         ok = not extra
         res.append(mk('override-frame:%s' % R, 'proved' if ok else 'refuted', ms, ['C18'], fn=R,
                       text='attributes whose MRO-resolved definition differs from HtmlRenderer\'s are within the declared extension set %s' % sorted(EXTENSION_SETS[R]),
